@@ -126,11 +126,11 @@ def _triple(draw, tier, need_cp=None):
 
 
 @st.composite
-def _input(draw, used_eff):
+def _input(draw, used_eff, burst_ok=True):
     ncls = draw(st.sampled_from(["any", "any", "any", "any", "multiple",
                                  "one", "plus1", "minus1", "lt_used"]))
     k = draw(st.integers(1, 4))
-    if used_eff <= 32 and draw(st.integers(0, 9)) == 0:
+    if burst_ok and used_eff <= 32 and draw(st.integers(0, 9)) == 0:
         # a long burst: 65 .. 257 OFDM symbols (where an implementation is
         # tempted to work block by block)
         k = draw(st.sampled_from([65, 70, 100, 129, 150, 257]))
@@ -166,7 +166,7 @@ def _ofdm_case(draw, tier):
     used_eff = fft if used is None else used
     d = dict(part="ofdm", fft=fft, cp=cp, used=used,
              via_set=draw(_via_set(tier)))
-    d.update(draw(_input(used_eff)))
+    d.update(draw(_input(used_eff, burst_ok=fft <= 256)))
     return d
 
 
@@ -229,7 +229,9 @@ def _chan_case(draw, tier):
     d = dict(part="chan", fft=fft, cp=cp, used=used,
              via_set=draw(_via_set(tier)), n_tx=draw(st.sampled_from([1, 1,
                                                                       2])))
-    d.update(draw(_input(used_eff)))
+    # (long bursts only with small transforms: the time-domain channel costs
+    # samples x taps)
+    d.update(draw(_input(used_eff, burst_ok=fft + cp <= 96)))
     d.update(draw(_channel(cp, ["any", "any", "any", "max", "max", "max",
                                 "one", "zero"])))
     return d
